@@ -470,10 +470,12 @@ def rule_ms(ctx: Ctx):
         else:
             got[name] = show(v) if v is not None else "not set"
     want = {dt[1]: code for dt, code in cases}
-    r5.ob(got == want, lambda: _f(
-        "MS-5", "__init__{typecodes}", mm, fn,
-        "container per data type is %s (None = list); the declared types must map to int->'q', 'uint'->'Q', float->'d', bool->'B', anything else a list "
-        "(a narrower typecode truncates or rejects stored values)" % got))
+    for name_ in want:
+        r5.ob(got.get(name_) == want[name_], lambda name_=name_: _f(
+            "MS-5", "__init__{typecode:%s}" % name_, mm, fn,
+            "states declared with data type %s are kept in %s; the declared types must map to int->'q', 'uint'->'Q', float->'d', bool->'B', anything "
+            "else a list (a narrower typecode truncates or rejects stored values)" % (
+                name_, "a list" if got.get(name_) is None else "array(%r)" % (got.get(name_),))))
     for r, n in ((r1, 2), (r2, 4), (r3, 5), (r4, 2), (r5, 1)):
         r.require_instances(n)
     return [r1, r2, r3, r4, r5]
@@ -653,8 +655,31 @@ def rule_ms_states(ctx: Ctx):
 
 
 def rule_ms_states_untyped(ctx: Ctx):
-    """the same without the typecode table (MS-5): for operators whose states hold objects only (scan)"""
+    """the same without the typecode table (MS-5): for operators whose states hold objects only"""
     return _ms_states(ctx, ("MS-4", "MS-5"))
+
+
+def ms_for_types(*types, maps=False):
+    """the store obligations for an operator that declares states of the given data types only (the typecode of another data
+    type is not its concern); maps=True keeps the group-index map obligations (group_by)"""
+    def run(ctx):
+        out = []
+        for r in rule_ms(ctx):
+            if r.rule == "MS-4" and not maps:
+                continue
+            kept = []
+            for f in r.findings:
+                if "{typecode:" in f.construct and f.construct.split("{typecode:")[1].rstrip("}") not in types:
+                    continue
+                if not maps and ("mapper" in f.construct or "_map" in f.construct or "new_index" in f.construct):
+                    continue
+                kept.append(f)
+            r.discharged += len(r.findings) - len(kept)
+            r.findings = kept
+            out.append(r)
+        return out
+    run.__name__ = "rule_ms_" + "_".join(types)
+    return run
 
 
 def _ms_states(ctx, skip):
@@ -670,4 +695,51 @@ def _ms_states(ctx, skip):
     return out
 
 
-RULES = [rule_ms, rule_ms6, rule_ms7]
+TOPO = "rxsci/state/state_topology.py"
+
+
+def rule_tp1(ctx: Ctx) -> RuleResult:
+    """TP-1: the state topology hands every declaration its own state id: create_state appends one definition carrying the declared
+    data type and default and returns the index of that new entry, on every path; create_mapper is create_state(name, 'mapper') --
+    neither returns the id of an existing state (two operators declaring a state of the same name would share one store)."""
+    r = RuleResult("TP-1", "StateTopology: every create_state / create_mapper call appends one definition (declared type and default) and returns its new index")
+    m, fn = ctx.function(TOPO, "StateTopology.create_state")
+    r.instances += 1
+    params = m.scopes[fn].params
+    for p in ctx.fn_paths(m, fn, inline=False):
+        r.paths += 1
+        apps = [e for e in p.trace if e.k == "mutate" and e.method == "append" and e.base == ("attr", SELF, "states")]
+        ok = p.outcome == "return" and len(apps) == 1
+        v = p.value
+        if ok:
+            sd = apps[0].args[0]
+            flds = [x for x in sd[2]] if sd[0] == "call" else []
+            vals = [x[2] if x[0] == "kw" else x for x in flds]
+            ok = ("arg", "data_type") in vals and ("arg", "default_value") in vals
+            f = linform(v) if v is not None else None
+            ln = [a for a in (f[0] if f else {}) if a[0] == "call" and a[1] == ("builtin", "len") and a[2][0] == ("attr", SELF, "states")]
+            ok = ok and f is not None and len(f[0]) == 1 and len(ln) == 1 and f[0][ln[0]] == 1 and f[1] == -1 \
+                and p.trace.index(apps[0]) < len(p.trace) - 1
+        r.ob(ok, lambda p=p, apps=apps: _topo_f("create_state", m, fn,
+                                               "every path must append exactly one StateDef(name, data_type, default_value) and return len(self.states) - 1 (the id of "
+                                               "the new state); this path appends %d definition(s) and returns %s" % (len(apps), show(p.value) if p.value is not None else None), p))
+    m2, fn2 = ctx.function(TOPO, "StateTopology.create_mapper")
+    r.instances += 1
+    for p in ctx.fn_paths(m2, fn2, inline=False):
+        r.paths += 1
+        v = p.value
+        ok = p.outcome == "return" and v is not None and v[0] == "mcall" and v[1] == SELF and v[2] == "create_state" \
+            and any((a[0] == "kw" and a[1] == "data_type" and a[2] == ("const", "mapper")) or a == ("const", "mapper") for a in v[3]) \
+            and any(a == ("arg", "name") or (a[0] == "kw" and a[2] == ("arg", "name")) for a in v[3])
+        r.ob(ok, lambda p=p: _topo_f("create_mapper", m2, fn2,
+                                     "every path must return self.create_state(name, data_type='mapper'), a new state; this path returns %s [%s]" % (
+                                         show(p.value) if p.value is not None else None, "; ".join(e.brief() for e in p.trace if e.k == "decision")), p))
+    r.require_instances(2)
+    return r
+
+
+def _topo_f(what, m, node, msg, p):
+    return Finding("TP-1", "%s::StateTopology.%s" % (TOPO, what), m.where(node), msg, trace_of(p))
+
+
+RULES = [rule_ms, rule_ms6, rule_ms7, rule_tp1]
